@@ -18,6 +18,7 @@ open ApiFu.C09 ApiFu.C09.Codec
 /-- `reflect.TypeOf(apifu.TimeBasedCursor{})`: fields "Nano" (int64) and "Id" (string). -/
 def tbcTy : Ty := .struct [([78, 97, 110, 111], .int .w64), ([73, 100], .str)]
 
+/-- `TimeBasedCursor` is a type the encoder writes faithfully (two distinct field names). -/
 theorem tbcTy_ok : tbcTy.Ok := by
   refine ⟨by decide, by decide, ?_⟩
   intro f hf
@@ -37,6 +38,7 @@ def tbcDec (s : String) : Option (TCursor Bytes) :=
     shorter than 2^32 bytes. -/
 def Representable (c : TCursor Bytes) : Prop := Int64Range c.nano ∧ c.id.length < 2 ^ 32
 
+/-- A representable cursor is a value of the cursor type in the sense of the codec model. -/
 theorem representable_wellTyped {c : TCursor Bytes} (h : Representable c) :
     (Val.struct [.int c.nano, .str c.id]).WellTyped tbcTy := by
   obtain ⟨⟨h1, h2⟩, h3⟩ := h
@@ -99,12 +101,15 @@ def ltBytes : Bytes → Bytes → Bool
   | [], _ :: _ => true
   | a :: s, b :: t => decide (a < b) || (a == b && ltBytes s t)
 
+/-- Bytes are totally ordered. -/
 theorem uint8_trichotomy (x y : UInt8) : x < y ∨ x = y ∨ y < x := by
   rcases Nat.lt_trichotomy x.toNat y.toNat with h | h | h
   · exact Or.inl (UInt8.lt_iff_toNat_lt.mpr h)
   · exact Or.inr (Or.inl (UInt8.toNat_inj.mp h))
   · exact Or.inr (Or.inr (UInt8.lt_iff_toNat_lt.mpr h))
 
+/-- **strictTotal_ltBytes** — the order of `strings.Compare` (lexicographic on bytes) is a strict
+    total order: the `StrictTotal ltId` premise of the C16 theorems holds at the real id order. -/
 theorem strictTotal_ltBytes : StrictTotal ltBytes where
   irrefl := by
     intro a
